@@ -13,15 +13,15 @@ type Record struct {
 	Deps        [][]int `json:"deps"`
 	Untracked   []bool  `json:"untracked"`
 	InvalidSelf []bool  `json:"invalid_self"`
-	SelfSkip    []bool  `json:"self_skip,omitempty"` // own fingerprint is "" (HashSkip): own changes are not tracked, dependencies are
+	SelfSkip    []bool  `json:"self_skip,omitempty"`   // own fingerprint is "" (HashSkip): own changes are not tracked, dependencies are
 	Real        bool    `json:"real_export,omitempty"` // export files are real gc export data; lookups may go through packages.Importer
-	Strict      bool    `json:"strict"`              // conc: no world change between a listing and the end of its operation
-	HashYield   bool    `json:"hash_yield"`          // conc: the fingerprint function is a scheduling point
-	Tasks       [][]Op  `json:"tasks"`               // caller tasks
-	World       []Op    `json:"world"`               // world task (conc)
-	Sched       []int   `json:"sched"`               // scheduler choices
-	Preempt     [][]int `json:"preempt"`             // per caller: function-entry yield counts at which to yield
-	MapOrder    []int   `json:"map_order"`           // tape for unordered iteration seams
+	Strict      bool    `json:"strict"`                // conc: no world change between a listing and the end of its operation
+	HashYield   bool    `json:"hash_yield"`            // conc: the fingerprint function is a scheduling point
+	Tasks       [][]Op  `json:"tasks"`                 // caller tasks
+	World       []Op    `json:"world"`                 // world task (conc)
+	Sched       []int   `json:"sched"`                 // scheduler choices
+	Preempt     [][]int `json:"preempt"`               // per caller: function-entry yield counts at which to yield
+	MapOrder    []int   `json:"map_order"`             // tape for unordered iteration seams
 }
 
 // Op is one action of a caller or of the world.
